@@ -11,6 +11,7 @@ see the ``DecFileParser`` class.
 
 from __future__ import annotations
 
+import html
 import itertools
 from typing import Any
 
@@ -100,7 +101,9 @@ class DecayChainViewer:
             try:
                 return latex_to_html_name(_EvtGen2LatexNameMap[name])
             except Exception:
-                return name
+                # The name is shown as text in an HTML-like label:
+                # a raw "&", "<" or ">" makes Graphviz reject the graph
+                return html.escape(name, quote=False)
 
         def html_table_label(
             names: list[str],
